@@ -403,7 +403,11 @@ func (wd *world) nested(o *opctx) {
 	for d := 1; d < wd.cfg.NK; d++ {
 		k2 := (o.k-1+d)%wd.cfg.NK + 1
 		if wd.owner(k2) > wd.owner(o.k) {
-			wd.submit("get", k2, nil, nil)()
+			no, body := wd.submit2("get", k2, nil, nil)
+			wd.mu.Lock()
+			delete(wd.out, no.id) // not a plan-level caller: never cancelled, never given a follow-up call
+			wd.mu.Unlock()
+			body()
 			return
 		}
 	}
